@@ -45,8 +45,7 @@ func (l *LRAPlanner) Process(ctx *shared.PlannerContext) (sql.ISelect, error) {
 			float64(l.Duration.Milliseconds())/1000))
 		break
 	case "bytes_over_time":
-		col = sql.NewRawObject(fmt.Sprintf("toFloat64(sum(length(_string))) / %f",
-			float64(l.Duration.Milliseconds())/1000))
+		col = sql.NewRawObject("toFloat64(sum(length(_string)))")
 		break
 	}
 
